@@ -405,9 +405,13 @@ def generate(rng, tier):
             op = {"op": "heal", "slot": slot}
         elif r < 0.55:
             op = {"op": "mutate", "slot": slot, "v": rng.randrange(1000)}
-        elif r < 0.58:
+        elif r < 0.57:
             op = {"op": "fresh", "spec": {"t": "deep", "n": rng.choice([1500, 4000])}}
-        elif r < 0.63:
+        elif r < 0.60:
+            # something unrelated happens in between: the reader reads text through a reader macro that temporarily
+            # extends the set of characters ending an identifier
+            op = {"op": "reader_noise"}
+        elif r < 0.65:
             # models that the READER produced (they carry source positions), put into plain containers in an order
             # that is not the source order, some of them twice
             idx = [rng.randrange(9) for _ in range(rng.randint(2, 5))]
@@ -566,7 +570,7 @@ def execute(desc):
                         note = ("idempotence", f"as_model(as_model(x)) differs: {str(tree_of(again))[:300]}")
                     elif expect is not None:
                         try:
-                            back = hy.eval(res, {}, module=_S["mod"])
+                            back = hy.eval(res, dict(SHADOWED), module=_S["mod"])
                             probes["eval_round_trips"] += 1
                             if not (back == expect) or type(back) is not type(expect):
                                 note = ("eval_round_trip", f"hy.eval gave {back!r:.200}, the literals mean {expect!r:.200}")
@@ -574,7 +578,7 @@ def execute(desc):
                             note = ("eval_round_trip", f"hy.eval raised {type(e).__name__}: {e!s:.200}")
                     elif plain:
                         try:
-                            back = hy.eval(res, {}, module=_S["mod"])
+                            back = hy.eval(res, dict(SHADOWED), module=_S["mod"])
                             probes["eval_round_trips"] += 1
                             if not (back == x) or type(back) is not type(x):
                                 note = ("eval_round_trip", f"hy.eval gave {back!r:.200} for {x!r:.200}")
@@ -628,6 +632,22 @@ def execute(desc):
                 probes["mutations_between_promotions"] = probes.get("mutations_between_promotions", 0) + 1
             events.append([i, "mutate", op["slot"], tgt is not None])
             promote(i, "mutated", pool[op["slot"]], "mutated", slot=op["slot"])
+        elif kind == "reader_noise":
+            import types as _types
+            nm = _types.ModuleType("c29noise")
+            try:
+                hy.eval(hy.read_many('(defreader dur (with [(&reader.end-identifier "s")] (setv n (.parse-one-form &reader))) '
+                                     '(.getc &reader) n)\n(setv noise [#dur 90s #dur 5s])\n'), module=nm)
+                ok_noise = list(nm.noise) == [90, 5]
+            except BaseException as e:
+                ok_noise = "%s: %s" % (type(e).__name__, str(e)[:100])
+            if ok_noise is not True:
+                raise RuntimeError("harness: reader noise did not read as planned: %r" % (ok_noise,))
+            probes["reader_noise_between_promotions"] = probes.get("reader_noise_between_promotions", 0) + 1
+            events.append([i, "reader_noise"])
+            # right afterwards: values whose promotion goes through Symbol / Keyword validation
+            promote(i, "after_noise", [False, None, True, M.Keyword("max-size"), "s"], "after_noise",
+                    expect=[False, None, True, M.Keyword("max-size"), "s"])
         elif kind == "promote_read":
             models = list(hy.read_many(READ_SRC))
             vals = [1, "two", 3.5, M.Keyword("kw"), [4, 5], (6, "x"), True, b"by", {7: 8}]
@@ -667,6 +687,10 @@ def execute(desc):
     return {"events": events, "violations": viols[:4], "faults": faults, "probes": probes, "sigs": sigs,
             "steps": probes["promotions"]}
 
+
+# the promoted tree is made of literals only: evaluating it must not depend on what these names mean in the namespace
+SHADOWED = {n: "shadowed" for n in ("set", "list", "dict", "tuple", "frozenset", "str", "bytes", "int", "float", "complex", "bool",
+                                     "print", "len", "type", "object")}
 
 READ_SRC = '1\n"two"\n3.5\n:kw\n[4 5]\n#(6 "x")\nTrue\nb"by"\n{7 8}\n'
 
